@@ -191,49 +191,75 @@ ParseValue(d, e) ==
                             ELSE Res(FALSE, None, r.why))
 
 (* One iteration of `while offset < len(wire)` (plus the exit test). s = schema, ic = ignore_critical,
-   input = the elements of this level, st = machine state. Returns the next state and the name
+   input = the elements of this level, st = machine state.
+   Classify is the cheap part of the decision (which kind of element is at pos, which field it
+   belongs to); ScanStep completes it (parses the value) and returns the next state and the name
    of the branch taken. *)
-ScanStep(s, ic, input, st) ==
-  IF st.pos > Len(input) THEN
-      (IF st.want # 0 THEN Rej(st, "map-value-missing", "DoneDangling")
-       ELSE [st |-> [st EXCEPT !.status = "accept"], branch |-> "Done"])
+Classify(s, ic, input, st) ==
+  IF st.pos > Len(input) THEN [cls |-> IF st.want # 0 THEN "end-dangling" ELSE "end-ok", i |-> 0]
   ELSE LET e == input[st.pos] IN
-  IF ~e.fits THEN Rej(st, "overrun", "Overrun")
+  IF ~e.fits THEN [cls |-> "overrun", i |-> 0]
   ELSE IF st.want # 0 THEN
-      LET vd == s[st.want].elem[2] IN
-      IF e.t = vd.t THEN
-          LET r == ParseValue(vd, e) IN
-          (IF r.ok THEN [st |-> [st EXCEPT !.pos = @ + 1, !.want = 0, !.key = None,
-                                          !.out[st.want] = MapPut(@, st.key, r.fv),
-                                          !.taken = Append(@, <<st.want, st.pos>>)],
-                         branch |-> "MapValue"]
-           ELSE Rej(st, r.why, BadBranch(r.why)))
-      ELSE (IF IsOdd(e.t) /\ ~ic THEN Rej(st, "critical", "RejectCritical") ELSE Ign(st, "IgnoredInMap"))
+      (IF e.t = s[st.want].elem[2].t THEN [cls |-> "map-value", i |-> st.want]
+       ELSE IF IsOdd(e.t) /\ ~ic THEN [cls |-> "map-other-critical", i |-> 0]
+       ELSE [cls |-> "map-other-ignored", i |-> 0])
   ELSE LET i == Find(s, st.fpos, e.t) IN
-  IF i = 0 THEN
-      (IF ~IsOdd(e.t) THEN Ign(st, "IgnoredNonCritical")
-       ELSE IF ic THEN Ign(st, "IgnoredCriticalByFlag")
-       ELSE Rej(st, "critical", "RejectCritical"))
-  ELSE LET d == s[i] IN
-      CASE d.kind = "repeated" ->
-             LET r == ParseValue(d.elem[1], e) IN
-             (IF r.ok THEN [st |-> [st EXCEPT !.pos = @ + 1, !.fpos = i,
-                                             !.out[i].items = Append(@, r.fv),
-                                             !.taken = Append(@, <<i, st.pos>>)],
-                            branch |-> "RepeatedStays"]
-              ELSE Rej(st, r.why, BadBranch(r.why)))
-        [] d.kind = "map" ->
-             LET r == ParseValue(d.elem[1], e) IN
-             (IF r.ok THEN [st |-> [st EXCEPT !.pos = @ + 1, !.fpos = i, !.want = i, !.key = r.fv,
-                                             !.taken = Append(@, <<i, st.pos>>)],
-                            branch |-> "MapKey"]
-              ELSE Rej(st, r.why, BadBranch(r.why)))
-        [] OTHER ->
-             LET r == ParseValue(d, e) IN
-             (IF r.ok THEN [st |-> [st EXCEPT !.pos = @ + 1, !.fpos = i + 1, !.out[i] = r.fv,
-                                             !.taken = Append(@, <<i, st.pos>>)],
-                            branch |-> IF i = st.fpos THEN "FieldFound" ELSE "SkippedFound"]
-              ELSE Rej(st, r.why, BadBranch(r.why)))
+      IF i = 0 THEN [cls |-> IF ~IsOdd(e.t) THEN "unknown-noncritical"
+                             ELSE IF ic THEN "unknown-critical-flagged" ELSE "unknown-critical", i |-> 0]
+      ELSE [cls |-> CASE s[i].kind = "repeated" -> "repeated"
+                      [] s[i].kind = "map" -> "map-key"
+                      [] OTHER -> (IF i = st.fpos THEN "field-at-cursor" ELSE "field-after-skip"), i |-> i]
+
+\* branches each class can end in (used by TlvModelScan to avoid evaluating ScanStep once per action)
+BadBranches == {"BadUintWidth", "BadName", "BadNested"}
+BranchesOf(cls) ==
+  CASE cls = "end-ok" -> {"Done"} [] cls = "end-dangling" -> {"DoneDangling"} [] cls = "overrun" -> {"Overrun"}
+    [] cls = "map-value" -> {"MapValue"} \cup BadBranches
+    [] cls = "map-other-critical" -> {"RejectCritical"} [] cls = "map-other-ignored" -> {"IgnoredInMap"}
+    [] cls = "unknown-noncritical" -> {"IgnoredNonCritical"} [] cls = "unknown-critical-flagged" -> {"IgnoredCriticalByFlag"}
+    [] cls = "unknown-critical" -> {"RejectCritical"}
+    [] cls = "repeated" -> {"RepeatedStays"} \cup BadBranches [] cls = "map-key" -> {"MapKey"} \cup BadBranches
+    [] cls = "field-at-cursor" -> {"FieldFound"} \cup BadBranches
+    [] cls = "field-after-skip" -> {"SkippedFound"} \cup BadBranches
+
+ScanStep(s, ic, input, st) ==
+  LET k == Classify(s, ic, input, st)
+      i == k.i
+      e == input[st.pos]
+  IN
+  CASE k.cls = "end-ok" -> [st |-> [st EXCEPT !.status = "accept"], branch |-> "Done"]
+    [] k.cls = "end-dangling" -> Rej(st, "map-value-missing", "DoneDangling")
+    [] k.cls = "overrun" -> Rej(st, "overrun", "Overrun")
+    [] k.cls = "map-value" ->
+         LET r == ParseValue(s[i].elem[2], e) IN
+         (IF r.ok THEN [st |-> [st EXCEPT !.pos = @ + 1, !.want = 0, !.key = None,
+                                         !.out[i] = MapPut(@, st.key, r.fv),
+                                         !.taken = Append(@, <<i, st.pos>>)],
+                        branch |-> "MapValue"]
+          ELSE Rej(st, r.why, BadBranch(r.why)))
+    [] k.cls \in {"map-other-critical", "unknown-critical"} -> Rej(st, "critical", "RejectCritical")
+    [] k.cls = "map-other-ignored" -> Ign(st, "IgnoredInMap")
+    [] k.cls = "unknown-noncritical" -> Ign(st, "IgnoredNonCritical")
+    [] k.cls = "unknown-critical-flagged" -> Ign(st, "IgnoredCriticalByFlag")
+    [] k.cls = "repeated" ->
+         LET r == ParseValue(s[i].elem[1], e) IN
+         (IF r.ok THEN [st |-> [st EXCEPT !.pos = @ + 1, !.fpos = i,
+                                         !.out[i].items = Append(@, r.fv),
+                                         !.taken = Append(@, <<i, st.pos>>)],
+                        branch |-> "RepeatedStays"]
+          ELSE Rej(st, r.why, BadBranch(r.why)))
+    [] k.cls = "map-key" ->
+         LET r == ParseValue(s[i].elem[1], e) IN
+         (IF r.ok THEN [st |-> [st EXCEPT !.pos = @ + 1, !.fpos = i, !.want = i, !.key = r.fv,
+                                         !.taken = Append(@, <<i, st.pos>>)],
+                        branch |-> "MapKey"]
+          ELSE Rej(st, r.why, BadBranch(r.why)))
+    [] OTHER ->      \* "field-at-cursor", "field-after-skip" (skipped fields processed)
+         LET r == ParseValue(s[i], e) IN
+         (IF r.ok THEN [st |-> [st EXCEPT !.pos = @ + 1, !.fpos = i + 1, !.out[i] = r.fv,
+                                         !.taken = Append(@, <<i, st.pos>>)],
+                        branch |-> IF k.cls = "field-at-cursor" THEN "FieldFound" ELSE "SkippedFound"]
+          ELSE Rej(st, r.why, BadBranch(r.why)))
 
 ScanLoop(s, ic, input, st) == IF st.status # "run" THEN st
                               ELSE ScanLoop(s, ic, input, ScanStep(s, ic, input, st).st)
